@@ -258,8 +258,12 @@ def rule_concatenate(ctx):
             okn = newaxes[0] == 'binop' and newaxes[1] == '+' and newaxes[2][0] == 'binop' and newaxes[2][3] == ('list', (cax[0],)) \
                 and newaxes[2][2][0] == 'sub' and newaxes[2][2][2] == ('slice', T.CONST_NONE, AXU, T.CONST_NONE) \
                 and newaxes[3][0] == 'sub' and newaxes[3][2] == ('slice', AXU, T.CONST_NONE, T.CONST_NONE) and newaxes[3][1] == newaxes[2][2][1]
+            sub = newaxes[3][1] if okn else None
+            if not okn and newaxes[0] == 'mut' and newaxes[2] == 'insert' and tuple(newaxes[3]) == (AXU, cax[0]) \
+                    and newaxes[1][0] == 'call' and T.dotted(newaxes[1][1]) == 'list' and len(newaxes[1][2]) == 1:
+                # other spelling: a fresh list of the other axes, then insert(k, newaxis)
+                okn, sub = True, newaxes[1][2][0]
             if okn:
-                sub = newaxes[3][1]
                 okn = sub[0] == 'comp' and sub[3][0][1] == ('call', ('name', 'enumerate'), (('attr', ('sub', joined, const(0)), 'axes'),), ()) \
                     and sub[3][0][2] == (T.mkcmp('!=', ('idx', ('attr', ('sub', joined, const(0)), 'axes'), sub[3][0][0]), AXU),)
             if not okn:
@@ -287,7 +291,16 @@ def rule_concatenate(ctx):
                     if not any(x[0] == 'call' and T.call_name(x) == 'align_' for x in T.strip_phi(src)):
                         ctx.violated('R1', fi, 'joined list', 'the aligned arrays must be the ones that are joined', node=p.node)
                         continue
-            raisers = [q for q in raise_paths(ev) if exc_name(q.value) == 'ValueError' and any('.values ==' in T.show(a) and pol is False for a, pol in q.guards)]
+            def detects_mismatch(a, pol):
+                # `if not np.all(x.values == y.values): raise` inside loops, or the same test folded with any(not ... for ...) / all(... for ...)
+                if '.values ==' not in T.show(a):
+                    return False
+                if a[0] == 'call' and T.dotted(a[1]) in ('any', 'all') and len(a[2]) == 1 and a[2][0][0] == 'comp':
+                    elt = a[2][0][2]
+                    negated = elt[0] == 'unop' and elt[1] == 'not'
+                    return (T.dotted(a[1]) == 'any' and negated and pol is True) or (T.dotted(a[1]) == 'all' and not negated and pol is False)
+                return pol is False
+            raisers = [q for q in raise_paths(ev) if exc_name(q.value) == 'ValueError' and any(detects_mismatch(a, pol) for a, pol in q.guards)]
             if not align and not nocheck:
                 if not raisers:
                     ctx.violated('R1', fi, inst, 'without align the secondary axes of all inputs must be compared label-wise and a mismatch must raise ValueError', node=p.node)
